@@ -1118,9 +1118,6 @@ Section Generic.
           -- apply Hok. apply orb_false_iff in Hfl. apply Hfl.
         * destruct (ef_a (fails (e_calls st))).
           { injection Hadd as <- <-. apply (einv_err acc st); try reflexivity; [exact He|left; reflexivity]. }
-          destruct (candidate fx (e_opts st) W H (pad W H im) (pad W H im2)) as [[rN bnN] imN].
-          destruct (candidate fx (e_opts st) W H (fill_impl W H (pad W H im) (e_prect st)) (pad W H im2))
-            as [[rB bnB] imB].
           match type of Hadd with (if ?c then _ else _) = _ => destruct c end.
           -- destruct (ef_k (fails (e_calls st)) || mux_full maxf st) eqn:Hfl; injection Hadd as <- <-.
              ++ apply (einv_err acc st); try reflexivity; [exact He|left; reflexivity].
